@@ -1,6 +1,7 @@
 package c17
 
 import (
+	"fmt"
 	"math/rand"
 	"strconv"
 	"strings"
@@ -675,10 +676,46 @@ func exhaustive2(g *core.G) {
 
 // ---- entry --------------------------------------------------------------------------------------------------------------------
 
+// attribute-less types (pcore treats a type without attributes whose ancestors have none either as an INTERFACE, matched
+// structurally): chains in which members come from `constants` only, or from nowhere — the instance relation along the chain,
+// in both directions, for every position of the constants-only type
+func genInterfaces(g *core.G) {
+	none := "() - - -"
+	consts := "() - - - (k (c (i 3)))"
+	attr := "((a int n -)) - - -"
+	shapes := [][]string{
+		{none, consts}, {none, none}, {consts, none}, {consts, consts}, {none, consts, none}, {none, none, consts}, {consts, none, none},
+		{none, attr}, {attr, none}, {attr, consts}, {none, consts, attr}, {none, attr, consts},
+	}
+	for _, sh := range shapes {
+		var ds, acts []string
+		for i, body := range sh {
+			parent := "-"
+			if i > 0 {
+				parent = fmt.Sprint(i - 1)
+			}
+			ds = append(ds, "("+parent+" "+body+")")
+			if strings.HasPrefix(body, "((a") || (i > 0 && strings.HasPrefix(sh[0], "((a")) || (i > 1 && strings.HasPrefix(sh[1], "((a")) {
+				acts = append(acts, fmt.Sprintf("(newpos %d (i %d))", i, i+1))
+			} else {
+				acts = append(acts, fmt.Sprintf("(newpos %d)", i))
+			}
+		}
+		for i := range sh {
+			for j := range sh {
+				acts = append(acts, fmt.Sprintf("(inst %d %d)", i, j))
+			}
+		}
+		g.Emit("obj (" + strings.Join(ds, " ") + ") (" + strings.Join(acts, " ") + ")")
+	}
+}
+
 func gen(g *core.G) {
 	exhaustive(g)
 	exhaustive2(g)
 	genTParam(g)
+	genInterfaces(g)
+	genIface(g)
 	chains, perChain, tuples := 300, 4, 5
 	if g.Thorough() {
 		chains, perChain = 10000, 2
